@@ -33,61 +33,125 @@ def proportional(triple, spec):
     return True, None
 
 
+def survey_step_calls(fx, from_affine):
+    """Interpret from_affine with Q = (qx, qy) as atoms and the step functions as opaque updates of the running point:
+    returns {step fn: set of argument shapes}, an argument being 'T' (the running point), 'Q' (the base) or a polynomial in
+    qx, qy (a value precomputed outside the loop and passed in)."""
+    import bitlin
+    qx, qy = A('qx'), A('qy')
+    calls = {}
+    counter = [0]
+
+    def shape(v):
+        if isinstance(v, Agg) and len(v.items) == 3 and isinstance(v.items[0], Poly):
+            # affine base (x, y, infinity flag) vs. projective running point (X, Y, Z)
+            return 'T' if isinstance(v.items[2], Poly) else 'Q'
+        if isinstance(v, Poly):
+            return v
+        return None
+
+    def tr(I, fr, t, c, pth):
+        res = c.get('res') or c.get('def') or ''
+        if res.startswith(from_affine + '::') and fx.body(res) is not None and '{closure' not in res:
+            vals = []
+            for a in t['args']:
+                v = fr.deref_operand(a)
+                for _ in range(4):
+                    if isinstance(v, exp.Ref):
+                        v = fr._project(fr.store.get(v.root, exp.TOP), v.proj)
+                vals.append(shape(v))
+            calls.setdefault(res, [])
+            key = tuple(repr(x) for x in vals)
+            if key not in [k for k, _ in calls[res]]:
+                calls[res].append((key, vals))
+            counter[0] += 1
+            k = counter[0]
+            fr.store_through(t['args'][0], Agg([A('X_%d' % k), A('Y_%d' % k), A('Z_%d' % k)]))
+            fr.storev(t['dest'], Agg([A('a_%d' % k), A('b_%d' % k), A('c_%d' % k)]))
+            return True
+        if c.get('name') in ('into', 'from', 'into_projective') and len(t['args']) == 1:
+            v = fr.deref_operand(t['args'][0])
+            if shape(v) == 'Q':
+                fr.storev(t['dest'], Agg([qx, qy, PR.ONE]))
+                return True
+        if c.get('name') == 'is_zero' and c.get('trait') == 'CurveAffine':
+            fr.storev(t['dest'], Int(0, 1))
+            return True
+        if G.transfer(I, fr, t, c, pth):
+            return True
+        return bitlin.transfer(I, fr, t, c, pth)
+    I = exp.Interp(fx, 'none', extra_transfer=tr, max_steps=400000, inline=lambda q_: INL.is_private_helper(fx, q_) and not q_.startswith(from_affine + '::'))
+    I.run(from_affine, [Agg([qx, qy, Int(0, 1)])])
+    return I, calls
+
+
 def step_rules(fx, rep, from_affine):
     n = 0
     X, Y, Z, qx, qy = A('X'), A('Y'), A('Z'), A('qx'), A('qy')
     x, y = G.affine(X, Y, Z)
     fqx, fqy = G.Frac(qx), G.Frac(qy)
-    for p in sorted(q_ for q_ in fx.fns if q_.startswith(from_affine + '::') and fx.body(q_) is not None and '{closure' not in q_):
-        b = fx.body(p)
-        if b.arg_count not in (1, 2):
-            continue
-        kind = 'doubling' if b.arg_count == 1 else 'addition'
-        inst = 'from_affine:%s-step' % kind
-        rep.fn(p)
-        where = fx.fn(p)['span']
-        args = [('byref', Agg([X, Y, Z]))]
-        if kind == 'addition':
-            args.append(('byref', Agg([qx, qy, Int(0, 1)])))
-        I = exp.Interp(fx, 'none', extra_transfer=G.transfer, max_paths=16, inline=lambda q_: INL.is_private_helper(fx, q_) and not q_.startswith(from_affine + '::'))
-        try:
-            res = I.run(p, args)
-        except (exp.NotDerivable, exp.Budget) as e:
-            rep.fail('RING', inst, 'not derivable: %s' % e, where, construct=p)
-            continue
-        rep.sites(I.call_sites)
-        n += 1
-        res = [r for r in res if not (isinstance(r[1], tuple) and r[1] and r[1][0] == 'diverges')]
-        bad = []
-        if len(res) != 1:
-            bad.append('%d paths (the step functions are called for finite points only and should not branch)' % len(res))
-        for pth, ret, outs in res[:1]:
-            T = outs.get(1)
-            if not (isinstance(T, Agg) and len(T.items) == 3 and all(isinstance(v, Poly) for v in T.items)):
-                bad.append('the running point becomes %r' % (T,))
+    try:
+        I0, calls = survey_step_calls(fx, from_affine)
+        rep.sites(I0.call_sites)
+    except (exp.NotDerivable, exp.Budget) as e:
+        rep.fail('RING', 'from_affine:step-calls', 'the calls of the step functions are not derivable: %s' % e, fx.fn(from_affine)['span'], construct=from_affine)
+        return
+    for p in sorted(calls):
+        for key, vals in calls[p]:
+            if vals[:1] != ['T'] or any(v is None for v in vals):
+                rep.fail('RING', 'from_affine:step-arguments', 'step function %s is called with %s (expected the running point first, then the base and / or values computed from the base)' % (p, key), fx.fn(p)['span'], construct=p)
                 continue
-            if not (isinstance(ret, Agg) and len(ret.items) == 3 and all(isinstance(v, Poly) for v in ret.items)):
-                bad.append('returns %r, expected three line coefficients' % (ret,))
+            kind = 'addition' if 'Q' in vals else 'doubling'
+            inst = 'from_affine:%s-step' % kind
+            rep.fn(p)
+            where = fx.fn(p)['span']
+            args = []
+            for v in vals:
+                if v == 'T':
+                    args.append(('byref', Agg([X, Y, Z])))
+                elif v == 'Q':
+                    args.append(('byref', Agg([qx, qy, Int(0, 1)])))
+                else:
+                    args.append(('byref', v) if fx.body(p).local_ty(len(args) + 1).startswith('&') else v)
+            I = exp.Interp(fx, 'none', extra_transfer=G.transfer, max_paths=16, inline=lambda q_: INL.is_private_helper(fx, q_) and not q_.startswith(from_affine + '::'))
+            try:
+                res = I.run(p, args)
+            except (exp.NotDerivable, exp.Budget) as e:
+                rep.fail('RING', inst, 'not derivable: %s' % e, where, construct=p)
                 continue
-            X3, Y3, Z3 = T.items
-            sx, sy = G.law_double(x, y) if kind == 'doubling' else G.law_add(x, y, fqx, fqy)
-            z2 = Z3.mul(Z3)
-            if not (X3.mul(sx.d) == sx.n.mul(z2)) or not (Y3.mul(sy.d) == sy.n.mul(z2.mul(Z3))):
-                bad.append('the running point is not updated to %s by the affine %s law' % ('2T' if kind == 'doubling' else 'T + Q', 'tangent' if kind == 'doubling' else 'chord'))
-            if kind == 'doubling':
-                spec = [y.scale(2), (x * x).scale(-3), (x * x * x).scale(3) - (y * y).scale(2)]
-            else:
-                dx, dy = x - fqx, y - fqy
-                spec = [dx, dy.scale(-1), dy * fqx - dx * fqy]
-            okp, where_ = proportional(list(ret.items), spec)
-            if not okp:
-                names = ['coefficient of y_P', 'coefficient of x_P', 'constant term']
-                bad.append('the returned triple is not proportional to the %s line: %s and %s disagree' % ('tangent' if kind == 'doubling' else 'chord', names[where_[0]], names[where_[1]]))
-            if all(v.is_zero() for v in ret.items):
-                bad.append('the returned triple is identically zero')
-        rep.check(not bad, 'RING', inst,
-                  'T is updated to %s by the affine law and the returned (a, b, c) is an Fq2-multiple of the %s line (coefficient of y_P, of x_P, constant), as polynomial identities in the coordinates'
-                  % (('2T', 'tangent') if kind == 'doubling' else ('T + Q', 'chord')), '; '.join(bad[:3]), where, construct=p)
+            rep.sites(I.call_sites)
+            n += 1
+            res = [r for r in res if not (isinstance(r[1], tuple) and r[1] and r[1][0] == 'diverges')]
+            bad = []
+            if len(res) != 1:
+                bad.append('%d paths (the step functions are called for finite points only and should not branch)' % len(res))
+            for pth, ret, outs in res[:1]:
+                T = outs.get(1)
+                if not (isinstance(T, Agg) and len(T.items) == 3 and all(isinstance(v, Poly) for v in T.items)):
+                    bad.append('the running point becomes %r' % (T,))
+                    continue
+                if not (isinstance(ret, Agg) and len(ret.items) == 3 and all(isinstance(v, Poly) for v in ret.items)):
+                    bad.append('returns %r, expected three line coefficients' % (ret,))
+                    continue
+                X3, Y3, Z3 = T.items
+                sx, sy = G.law_double(x, y) if kind == 'doubling' else G.law_add(x, y, fqx, fqy)
+                z2 = Z3.mul(Z3)
+                if not (X3.mul(sx.d) == sx.n.mul(z2)) or not (Y3.mul(sy.d) == sy.n.mul(z2.mul(Z3))):
+                    bad.append('the running point is not updated to %s by the affine %s law' % ('2T' if kind == 'doubling' else 'T + Q', 'tangent' if kind == 'doubling' else 'chord'))
+                if kind == 'doubling':
+                    spec = [y.scale(2), (x * x).scale(-3), (x * x * x).scale(3) - (y * y).scale(2)]
+                else:
+                    dx, dy = x - fqx, y - fqy
+                    spec = [dx, dy.scale(-1), dy * fqx - dx * fqy]
+                okp, where_ = proportional(list(ret.items), spec)
+                if not okp:
+                    names = ['coefficient of y_P', 'coefficient of x_P', 'constant term']
+                    bad.append('the returned triple is not proportional to the %s line: %s and %s disagree' % ('tangent' if kind == 'doubling' else 'chord', names[where_[0]], names[where_[1]]))
+                if all(v.is_zero() for v in ret.items):
+                    bad.append('the returned triple is identically zero')
+            rep.check(not bad, 'RING', inst,
+                      'T is updated to %s by the affine law and the returned (a, b, c) is an Fq2-multiple of the %s line (coefficient of y_P, of x_P, constant), as polynomial identities in the coordinates (arguments as from_affine passes them: %s)'
+                      % (('2T', 'tangent', list(key)) if kind == 'doubling' else ('T + Q', 'chord', list(key))), '; '.join(bad[:3]), where, construct=p)
     rep.floor('RING', 'line-step-functions', n, 2)
 
 
